@@ -25,15 +25,16 @@ Precedence == dummy = 0 =>
 
 Engines == {"sqlite", "postgres", "", "mysql"}
 \* database section: engine, sqlite path set?, postgres host/port/user/db_name set?, prepared db on?, prepared path set?, prepared file exists?
-DbRows == {[engine |-> e, sqlite |-> sp, host |-> h, port |-> p, user |-> u, dbname |-> d, prepared |-> pr, ppath |-> pp, pexists |-> px] :
-             e \in Engines, sp \in BOOLEAN, h \in BOOLEAN, p \in BOOLEAN, u \in BOOLEAN, d \in BOOLEAN, pr \in BOOLEAN, pp \in BOOLEAN, px \in BOOLEAN}
+\* and a circumstance the decision must NOT depend on: does the SQLite database file exist already (a restart)?
+DbRows == {[engine |-> e, sqlite |-> sp, host |-> h, port |-> p, user |-> u, dbname |-> d, prepared |-> pr, ppath |-> pp, pexists |-> px, dbexists |-> dx] :
+             e \in Engines, sp \in BOOLEAN, h \in BOOLEAN, p \in BOOLEAN, u \in BOOLEAN, d \in BOOLEAN, pr \in BOOLEAN, pp \in BOOLEAN, px \in BOOLEAN, dx \in BOOLEAN}
 Accept(r) ==
   /\ (r.prepared => (r.ppath /\ r.pexists))
   /\ CASE r.engine = "sqlite"   -> r.sqlite
        [] r.engine = "postgres" -> r.host /\ r.port /\ r.user /\ r.dbname
        [] OTHER -> FALSE
 \* a file can only exist at a non-empty path
-Meaningful(r) == r.pexists => r.ppath
+Meaningful(r) == (r.pexists => r.ppath) /\ (r.dbexists => r.sqlite)
 ValidationTable == {[row |-> r, accept |-> Accept(r)] : r \in {x \in DbRows : Meaningful(x)}}
 
 InvalidDbRefused == dummy = 0 =>
